@@ -475,3 +475,74 @@ func (c *Ctx) ctxEdges(root *ssa.Function, m unitMember, v ssa.Value, at *ssa.Ba
 	}
 	return out, true
 }
+
+// fieldValue: the SSA value last stored into field f of the object allocated by a (composite
+// literal or new), looking at the stores that dominate `use`; nil when none does.
+func fieldValue(a *ssa.Alloc, f string, use ssa.Instruction) ssa.Value {
+	var best *ssa.Store
+	for _, ref := range *a.Referrers() {
+		fa, ok := ref.(*ssa.FieldAddr)
+		if !ok || fieldName(fa.X.Type(), fa.Field) != f {
+			continue
+		}
+		for _, r2 := range *fa.Referrers() {
+			st, ok := r2.(*ssa.Store)
+			if !ok || st.Addr != ssa.Value(fa) {
+				continue
+			}
+			if use != nil && st != use && !instrDominates(st, use) {
+				continue
+			}
+			if best == nil || instrDominates(best, st) {
+				best = st
+			}
+		}
+	}
+	if best == nil {
+		return nil
+	}
+	return best.Val
+}
+
+// nodePath resolves v.path[0].path[1]… to a term of fn, following objects built in fn
+// (composite literals) and objects handed back by constructor helpers of the repo (whose
+// field values are rewritten into fn's namespace). A construct written in place and the same
+// construct returned by `newX(args)` give the same term.
+func (c *Ctx) nodePath(fn *ssa.Function, v ssa.Value, use ssa.Instruction, path ...string) string {
+	if len(path) == 0 {
+		return c.term(fn, v)
+	}
+	v = unwrapIface(v)
+	switch x := v.(type) {
+	case *ssa.Alloc:
+		if fv := fieldValue(x, path[0], use); fv != nil {
+			return c.nodePath(fn, fv, use, path[1:]...)
+		}
+		t := c.fieldAtUse(fn, x, path[0], use)
+		if len(path) > 1 {
+			t += "." + strings.Join(path[1:], ".")
+		}
+		return t
+	case *ssa.Call:
+		g := callee(x)
+		if g != nil && c.W.InRepo(g) && g != fn && len(g.Blocks) > 0 {
+			rets := returnsOf(g)
+			if len(rets) == 1 && len(rets[0].Results) == 1 {
+				inner := c.nodePath(g, rets[0].Results[0], rets[0], path...)
+				return c.substParams(fn, x, inner)
+			}
+		}
+	}
+	return c.term(fn, v) + "." + strings.Join(path, ".")
+}
+
+// edgeFeasible: false only when the reaching condition of pred conjoined with the condition
+// of the edge pred->succ is contradictory (no way of arriving through that edge).
+func (c *Ctx) edgeFeasible(fn *ssa.Function, pred, succ *ssa.BasicBlock) bool {
+	pc := c.PC(fn)
+	if _, ok := pc.cond[pred]; !ok {
+		return true
+	}
+	cs, known := pc.through(pred, succ, 0)
+	return !known || len(cs) > 0
+}
